@@ -14,3 +14,4 @@ def load_all():
     from . import array  # noqa
     from . import quantity_values  # noqa
     from . import registry  # noqa
+    from . import construct  # noqa
